@@ -615,7 +615,7 @@ func main() {
 	}
 	maxK := 6
 	if run.Thorough() {
-		maxK = 7
+		maxK = 8
 	}
 	e1, d1 := partWriters(run)
 	e2 := partRelays(run)
